@@ -752,7 +752,7 @@ func genC14(out *caseWriter, seed uint64, n int, args []string) error {
 		case k < 99: // include graphs over raw files
 			cmd := pick(r, c14Cmds)
 			c.Cmd = cmd
-			shape := pick(r, []string{"chain", "diamond", "missing", "directory", "unreadable", "bad-child", "dotdot", "flat", "self", "mutual", "inner-cycle", "wide", "deep"})
+			shape := pick(r, []string{"chain", "diamond", "missing", "directory", "unreadable", "bad-child", "dotdot", "flat", "self", "mutual", "inner-cycle", "wide", "wide-nested", "wide-nested", "deep"})
 			if (shape == "self" || shape == "mutual" || shape == "inner-cycle") && !r.chance(30) {
 				shape = "deep"
 			}
@@ -763,6 +763,27 @@ func genC14(out *caseWriter, seed uint64, n int, args []string) error {
 					p := fmt.Sprintf("w/%d.knut", q)
 					root.Raw += fmt.Sprintf("include \"%s\"\n", p)
 					c.Tree = append(c.Tree, c14Entry{Kind: 'F', Path: p, Raw: fmt.Sprintf("2020-01-01 open Assets:W%d\n", q)})
+				}
+				c.Tree = append([]c14Entry{root}, c.Tree...)
+			case "wide-nested":
+				// the root includes w files, each of which includes a file of its own (optionally one of
+				// the innermost files is unparseable): many parsers that still have to start another one
+				// are active at once (seeded change C14-errgroup-limit-hang was missed without this)
+				w := r.rangeInt(17, 60)
+				bad := -1
+				if r.chance(40) {
+					bad = r.intn(w)
+				}
+				root := c14Entry{Kind: 'F', Path: "journal.knut"}
+				for q := 0; q < w; q++ {
+					p := fmt.Sprintf("acc/%d.knut", q)
+					root.Raw += fmt.Sprintf("include \"%s\"\n", p)
+					c.Tree = append(c.Tree, c14Entry{Kind: 'F', Path: p, Raw: fmt.Sprintf("2020-01-01 open Assets:W%d\ninclude \"arch/%d.knut\"\n", q, q)})
+					leaf := fmt.Sprintf("2020-01-02 open Expenses:X%d\n", q)
+					if q == bad {
+						leaf += "2020-13-45 open open ???\n"
+					}
+					c.Tree = append(c.Tree, c14Entry{Kind: 'F', Path: fmt.Sprintf("acc/arch/%d.knut", q), Raw: leaf})
 				}
 				c.Tree = append([]c14Entry{root}, c.Tree...)
 			case "deep":
